@@ -86,7 +86,10 @@ ReadOwnWrite ==
    snapshot on the spot): no timeout outside the clamp range, none that no call applied, every echo the
    clamped argument *)
 HammerClean == IsRun(i) =>
-    (Rec[i].hammer.unclamped = 0 /\ Rec[i].hammer.never_stored = 0 /\ Rec[i].hammer.echo_wrong = 0)
+    (/\ Rec[i].hammer.unclamped = 0 /\ Rec[i].hammer.never_stored = 0 /\ Rec[i].hammer.echo_wrong = 0
+     \* owned fields: a setting only one thread ever writes reads back as that thread last stored it, whatever
+     \* happens to the other settings concurrently (no cross-field lost update)
+     /\ Rec[i].hammer.own_field_lost = 0)
 
 (* ---- acceptance: every event of every field of every run was consumed ---- *)
 RECURSIVE SumLens(_, _)
